@@ -5,6 +5,17 @@ def run(tier, seed):
     ck = vlib.Check(PID, tier, seed, "model_checking")
     q = tier == "quick"
     dkg_common.run_trigger(ck, PID)
+    # the library's verifiers on the boundary catalogue (all r, s in -1..q+1 for DSA; textbook Schnorr signatures and
+    # their neighbours) in p=23, q=11
+    import os
+    exe = vlib.build_driver("drv_dkg", extra_src=["seam_rng.cc", "seam_clock.cc"])
+    vp = os.path.join(vlib.OUT, PID, "trace-verify.ndjson"); os.makedirs(os.path.dirname(vp), exist_ok=True)
+    rc, so, se, _ = vlib.run_driver(exe, ["verify", vp])
+    if rc != 0:
+        raise vlib.Infra("drv_dkg verify failed: %s %s" % (so[-300:], se[-300:]))
+    vex = tracecheck.split_executions(vp)
+    tracecheck.validate(ck, PID, "verify", "DKGTrace", "DKGTrace.cfg", vex, classify=lambda ev, r: "verifier-%s" % ev.get("e"), chunks=1)
+    ck.add_cases("verifier-catalogue", len(vex[0]), [str((e.get("e"), e.get("y"), e.get("m"), e.get("r"), str(e.get("s"))[:20], e.get("mut"))) for e in vex[0] if e.get("e") in ("DssVer", "NtsVer")])
     dkg_common.run_proto(ck, PID, "nts", 48 if q else 1200, seed, 5 if q else 7)
     dkg_common.run_proto(ck, PID, "dss", 24 if q else 600, seed, 4 if q else 6)
     ck.cov["rule"] = ("simulated key generation + signing runs (new-TSch and threshold DSS, before and after refresh) with faulty signers; "
